@@ -124,9 +124,9 @@ type lin struct {
 }
 
 type npCtx struct {
-	c    *Ctx
-	fn   *ssa.Function
-	t    *termer
+	c  *Ctx
+	fn *ssa.Function
+	t  *termer
 	// difference constraints: x - y <= w  stored as edge y -> x with weight w
 	edges map[string]map[string]int64
 	atoms map[string]ssa.Value
@@ -397,6 +397,29 @@ func (n *npCtx) noteAtom(a string, v ssa.Value) {
 		if b, ok := x.Type().Underlying().(*types.Basic); ok && b.Info()&types.IsInteger != 0 {
 			if m, ok := phiLowerBound(x); ok {
 				n.addLe(lin{"", m}, lin{a, 0})
+			}
+			// lockstep induction variables: a sibling phi of the same header that starts d apart
+			// and takes the same constant step on every back edge stays d apart
+			for _, in := range x.Block().Instrs {
+				q, ok := in.(*ssa.Phi)
+				if !ok {
+					break
+				}
+				if q == x {
+					continue
+				}
+				if d, ok := lockstep(x, q); ok {
+					qa := n.atomTerm(q)
+					if _, seen := n.atoms[qa]; !seen {
+						n.atoms[qa] = q
+						if m, ok := phiLowerBound(q); ok {
+							n.addLe(lin{"", m}, lin{qa, 0})
+						}
+					}
+					// x - q = d
+					n.addLe(lin{a, 0}, lin{qa, d})
+					n.addLe(lin{qa, d}, lin{a, 0})
+				}
 			}
 		}
 	case *ssa.Next:
@@ -869,22 +892,7 @@ func (c *Ctx) factClobbered(f DomFact, use ssa.Instruction, fx *Facts) bool {
 		return false
 	}
 	fn := use.Parent()
-	if f.If != nil && f.If.Parent() != fn {
-		// fact from the call site of an inlined helper: keep it only if nothing reachable from the
-		// caller stores the fields it reads (and it reads no call results)
-		if risky[nil] {
-			return true
-		}
-		set, _ := c.reach([]*ssa.Function{f.If.Parent()}, nil)
-		for fld := range risky {
-			for _, s := range c.storesTo(fld) {
-				if set[s.Fn] {
-					return true
-				}
-			}
-		}
-		return false
-	}
+	crossFn := f.If != nil && f.If.Parent() != fn
 	clob := func(in ssa.Instruction) bool {
 		switch x := in.(type) {
 		case *ssa.Store:
@@ -933,21 +941,60 @@ func (c *Ctx) factClobbered(f DomFact, use ssa.Instruction, fx *Facts) bool {
 		}
 		return false
 	}
-	from := siteOf(f.If)
+	// segment check: does a clobbering instruction lie on a path from `from` to `target` inside sfn?
 	notIf := func(in ssa.Instruction) bool { return in == ssa.Instruction(f.If) }
-	for _, b := range fn.Blocks {
-		for _, in := range b.Instrs {
-			if !clob(in) || in == use {
-				continue
+	segment := func(sfn *ssa.Function, from Site, target ssa.Instruction) bool {
+		for _, b := range sfn.Blocks {
+			for _, in := range b.Instrs {
+				if !clob(in) || in == target {
+					continue
+				}
+				q := &PathQ{c: c, Fn: sfn, CutIn: notIf}
+				q.noDescend = true
+				if _, ok := q.Reach(from, 0, isInstr(in)); !ok {
+					continue
+				}
+				s := siteOf(in)
+				if _, ok := q.Reach(Site{s.B, s.I + 1}, 0, isInstr(target)); ok {
+					return true
+				}
 			}
-			q := &PathQ{c: c, Fn: fn, CutIn: notIf}
-			if _, ok := q.Reach(Site{from.B, from.I + 1}, 0, isInstr(in)); !ok {
-				continue
-			}
-			s := siteOf(in)
-			if _, ok := q.Reach(Site{s.B, s.I + 1}, 0, isInstr(use)); ok {
-				return true
-			}
+		}
+		return false
+	}
+	ifSite := siteOf(f.If)
+	if !crossFn {
+		return segment(fn, Site{ifSite.B, ifSite.I + 1}, use)
+	}
+	// fact established at the call site of an inlined helper (possibly several levels up):
+	// check the caller segment from the test to the call, then each helper from its entry on
+	var chain []ssa.CallInstruction
+	cur := fn
+	for i := 0; i < 6 && cur != f.If.Parent(); i++ {
+		site := c.activeSite(cur)
+		if site == nil {
+			return true
+		}
+		chain = append([]ssa.CallInstruction{site}, chain...)
+		cur = site.Parent()
+	}
+	if cur != f.If.Parent() || len(chain) == 0 {
+		return true
+	}
+	if segment(cur, Site{ifSite.B, ifSite.I + 1}, chain[0]) {
+		return true
+	}
+	for i, site := range chain {
+		callee := site.Common().StaticCallee()
+		if callee == nil {
+			return true
+		}
+		var target ssa.Instruction = use
+		if i+1 < len(chain) {
+			target = chain[i+1]
+		}
+		if segment(callee, entrySite(callee), target) {
+			return true
 		}
 	}
 	return false
@@ -1581,4 +1628,65 @@ func (c *Ctx) npAtEdge(pred, succ *ssa.BasicBlock, fx *Facts) (*npCtx, []DomFact
 		}
 	}
 	return c.npAtWith(last, fx, extra)
+}
+
+// lockstep: x and q are integer phis of the same loop header; on every entry
+// edge both are constants (x0, q0 with the same difference d = x0 - q0) and on
+// every back edge each is itself plus the same constant step. Then x - q = d
+// whenever the header is reached.
+func lockstep(x, q *ssa.Phi) (int64, bool) {
+	if x.Block() != q.Block() || len(x.Edges) != len(q.Edges) {
+		return 0, false
+	}
+	if b, ok := q.Type().Underlying().(*types.Basic); !ok || b.Info()&types.IsInteger == 0 {
+		return 0, false
+	}
+	hdr := x.Block()
+	var d int64
+	haveD, haveBack := false, false
+	for i, pred := range hdr.Preds {
+		if hdr.Dominates(pred) {
+			sx, okx := selfStep(x, x.Edges[i])
+			sq, okq := selfStep(q, q.Edges[i])
+			if !okx || !okq || sx != sq {
+				return 0, false
+			}
+			haveBack = true
+			continue
+		}
+		kx, okx := constInt(x.Edges[i])
+		kq, okq := constInt(q.Edges[i])
+		if !okx || !okq {
+			return 0, false
+		}
+		if haveD && kx-kq != d {
+			return 0, false
+		}
+		d, haveD = kx-kq, true
+	}
+	return d, haveD && haveBack
+}
+
+// selfStep: v is p + k (k constant), possibly computed in several steps.
+func selfStep(p *ssa.Phi, v ssa.Value) (int64, bool) {
+	var k int64
+	for i := 0; i < 4; i++ {
+		if v == ssa.Value(p) {
+			return k, true
+		}
+		bo, ok := v.(*ssa.BinOp)
+		if !ok || (bo.Op != token.ADD && bo.Op != token.SUB) {
+			return 0, false
+		}
+		c, ok := constInt(bo.Y)
+		if !ok {
+			return 0, false
+		}
+		if bo.Op == token.SUB {
+			c = -c
+		}
+		k += c
+		v = bo.X
+	}
+	return 0, false
 }
